@@ -24,3 +24,16 @@ impl Shared {
 // #safety
 // we not export the immutable bump allocator, so `Sync`` is always safe here
 unsafe impl Sync for Shared {}
+
+// Verification hook (off unless built with `--cfg sonic_rs_verif`): counts the arenas that have been
+// released, so that a conformance harness can compare the number of live arenas with its model.
+#[cfg(sonic_rs_verif)]
+#[doc(hidden)]
+pub static VERIF_SHARED_FREED: std::sync::atomic::AtomicUsize = std::sync::atomic::AtomicUsize::new(0);
+
+#[cfg(sonic_rs_verif)]
+impl Drop for Shared {
+    fn drop(&mut self) {
+        VERIF_SHARED_FREED.fetch_add(1, std::sync::atomic::Ordering::SeqCst);
+    }
+}
